@@ -108,7 +108,8 @@ func c12Track(acc sdk.AccAddress, start, end time.Time, dep sdk.Coins) *c12Gauge
 
 // c12ModuleRun: gauges created through the keeper's NewGauge + a bank deposit, reward blocks through the storage
 // module's own BeginBlocker at exactly the chosen times.
-func c12ModuleRun(env world.Env, amount int64, twoDenoms bool, D time.Duration, nGauges int, seq []int) mc.CaseResult {
+func c12ModuleRun(env world.Env, amount int64, denomMode int, D time.Duration, nGauges int, seq []int) mc.CaseResult {
+
 	equal := nGauges < 0 // -n: n gauges with identical parameters created in the same block
 	if equal {
 		nGauges = -nGauges
@@ -125,8 +126,10 @@ func c12ModuleRun(env world.Env, amount int64, twoDenoms bool, D time.Duration, 
 			j = 0
 		}
 		coins := sdk.NewCoins(sdk.NewInt64Coin("ujkl", amount+j))
-		if twoDenoms {
-			coins = coins.Add(sdk.NewInt64Coin("uatom", amount*3+1))
+		if denomMode == 1 {
+			coins = coins.Add(sdk.NewInt64Coin("uatom", amount*3+1)) // the earlier-sorted denomination is the larger one
+		} else if denomMode == 2 {
+			coins = coins.Add(sdk.NewInt64Coin("uatom", 7)) // ... or a tiny one that often accrues nothing in a block
 		}
 		end := start.Add(D).Add(time.Duration(j) * time.Hour)
 		pg := k.NewGauge(ctx, coins, end)
@@ -274,10 +277,10 @@ func c12EnumModule(thorough bool) mc.Enum {
 	seqs := nonDecreasingSeqs(9, maxLen)
 	for _, amt := range amounts {
 		for _, D := range durs {
-			for _, two := range []bool{false, true} {
+			for _, two := range []int{0, 1, 2} {
 				for _, n := range []int{1, 3, -2, -3} {
 					amt, D, two, n := amt, D, two, n
-					e.Cases = append(e.Cases, mc.Case{Desc: fmt.Sprintf("module|amount=%d|D=%s|twoDenoms=%v|gauges=%d|%d sequences of <=%d reward times", amt, D, two, n, len(seqs), maxLen), Run: func(env world.Env) mc.CaseResult {
+					e.Cases = append(e.Cases, mc.Case{Desc: fmt.Sprintf("module|amount=%d|D=%s|denoms=%d|gauges=%d|%d sequences of <=%d reward times", amt, D, two, n, len(seqs), maxLen), Run: func(env world.Env) mc.CaseResult {
 						out := mc.CaseResult{Class: "module"}
 						ea := env.(*world.EnvA)
 						for _, seq := range seqs {
